@@ -172,6 +172,7 @@ var corpus = []corpusCase{
 	{"F2", "F02_F03_builtins", [][2]int{{18, 19}}, "", false},
 	{"C01a", "C01a_closure_two_bound_vars", [][2]int{{16, 20}, {16, 21}}, "ebe", false},
 	{"C01b", "C01b_fs_access_path_cut", [][2]int{{22, 25}}, "path", true},
+	{"C01c", "C01c_fs_nontermination", [][2]int{{24, 29}}, "hang", true},
 }
 
 func runCorpus(rep *lib.Report) {
@@ -194,6 +195,17 @@ func runCorpus(rep *lib.Report) {
 			}
 			loaded[c.dir] = l
 			shows[c.dir], _ = nativeShows(dir, "tainted")
+		}
+		if c.hyp == "hang" {
+			// never run in-process: the analysis may not return
+			rep.Case("corpus:" + c.id)
+			rep.Count("corpus")
+			if h := probeFieldSensitive(l.Dir); h != "" && shows[c.dir] {
+				rep.Fail("corpus:"+c.id+":"+c.dir, "field-sensitive taint analysis does not terminate on corpus/findings/"+c.dir+"/main.go ("+h+"); the native run prints the tainted string", src, false)
+			} else {
+				rep.Notes = append(rep.Notes, "corpus "+c.id+": field-sensitive run terminates (finding no longer reproduces)")
+			}
+			continue
 		}
 		res := l.Analyze(taintrun.Options{SourceRe: "^source$", SinkRe: "^sink$", FieldSensitive: c.fs})
 		if !res.OK() {
@@ -245,6 +257,12 @@ func main() {
 		runDir(os.Args[2])
 		return
 	}
+	if len(os.Args) == 4 && os.Args[1] == "-probe" {
+		b := 90.0
+		fmt.Sscan(os.Args[3], &b)
+		probeChild(os.Args[2], b)
+		return
+	}
 	rep := lib.NewReport("C01")
 	rep.Rule = "µGo cases (chains of data operations from source_i() to sink_i(x), harness/mugo) x configurations {field-sensitive, on-demand, rewrites}; distinct = distinct step-kind sequence; non-trivial = positive case observed by the native ground truth"
 	runCorpus(rep)
@@ -282,6 +300,11 @@ func main() {
 			pairs = append(pairs, pr)
 		}
 		sort.Slice(pairs, func(i, j int) bool { return pairs[i].Source < pairs[j].Source })
+		fsHang := probeFieldSensitive(dir)
+		if fsHang != "" {
+			rep.Count("field-sensitive-hang")
+			rep.Fail("hang:field-sensitive", "the field-sensitive taint analysis does not terminate on a generated program inside the fragment ("+fsHang+"); no flow is ever reported", []byte("// "+fsHang+"\n"+p.Files["main.go"]), false)
+		}
 		for _, rw := range []bool{false, true} {
 			if rw && !lib.Thorough() && pi > 0 {
 				continue // import-free programs: the rewrites cannot change anything; one program checks that
@@ -299,6 +322,10 @@ func main() {
 					continue
 				}
 				if rw && !lib.Thorough() && (cfg.OnDemand || cfg.FieldSensitive) {
+					continue
+				}
+				if cfg.FieldSensitive && fsHang != "" {
+					rep.Count("config-skipped-after-hang:" + cfg.Name())
 					continue
 				}
 				tag := fmt.Sprintf("seed%d-prog%d-%s", lib.Seed(), pi, cfg.Name())
